@@ -51,6 +51,23 @@ def g(x):
     yield 1
 
 
+def rc(x):
+    # returns a value on which type collection itself fails (self-referential list)
+    d = x
+    l = [1]
+    l.append(l)
+    return l
+
+
+def gcy(x):
+    d = x
+    l = [1]
+    l.append(l)
+    yield l
+    l = None
+    yield 1
+
+
 class K:
     def m(self, x):
         return 2
@@ -97,6 +114,7 @@ def uses(x):
 POSITIONS = [
     "arg", "arg2", "ret", "yield", "dictval", "dictkey", "list", "tuple", "set", "method", "static", "classm", "receiver",
     "caller_local", "global_scan", "global_namesake", "prop_ret", "uses", "program_swaps_profiler", "instance_attr_namesake", "uses_random",
+    "ret_untypable", "yield_untypable", "arg_untypable",
 ]
 FAULT_SITES = ["log1", "log2", "log3", "flush"]
 
@@ -159,6 +177,28 @@ def scenario(M, T, kind: str, pos: str) -> Callable[[], Any]:
             return type(k.p).__name__
         if pos == "uses":
             return M.uses(obj)
+        if pos == "ret_untypable":
+            # type collection fails on the returned value; the callee's frame (whose local refers to the tripwire) must not
+            # outlive the call
+            v = M.rc(obj)
+            n = len(v)
+            v.clear()
+            return n
+        if pos == "yield_untypable":
+            n = 0
+            for v in M.gcy(obj):
+                n += 1
+                if isinstance(v, list):
+                    v.clear()
+            v = None
+            return n
+        if pos == "arg_untypable":
+            l = [obj]
+            l.append(l)
+            try:
+                return M.f(l) + M.f2(0, l)
+            finally:
+                l.clear()
         if pos == "instance_attr_namesake":
             # the receiver's instance dict holds the tripwire under the name of the method that is running
             k = M.K()
